@@ -29,6 +29,7 @@ const Var Var::none;
 
 Var::Var(Type t)
 {
+	_l = 0; // INT, NUMBER, FLOAT and BOOL start at zero / false
 	switch(_type=t)
 	{
 	case SSTRING: _ss[0] = '\0'; break;
